@@ -99,6 +99,8 @@ def parseOp (ts : List String) : Option Op :=
   | ["end", c, k, e, cm] => do some (.endt (c == "n") (← k.toInt?) (← e.toInt?) (cm == "1"))
   | ["del", p, o] => do some (.del (← p.toNat?) (← o.toInt?))
   | ["sleep", ms] => do some (.sleep (← ms.toInt?))
+  | ["move", p, b] => do some (.move (← p.toNat?) (← b.toNat?))
+  | ["via", b] => do some (.via (← b.toNat?))
   | ["fetch", c, iso, mb, sid, se, ps, fg] =>
     do some (.fetch ⟨c == "n", iso == "1", ← mb.toInt?, ← sid.toInt?, ← se.toInt?, ← parseFReqs ps,
                      ← allSome ((parseList fg ',').map parseNat?), 0, 0⟩ [])
@@ -110,6 +112,8 @@ def parseOp (ts : List String) : Option Op :=
 def parseOut (op : Op) (ts : List String) : Option Out :=
   match op, ts with
   | .sleep _, ["ok"] => some .ok
+  | .move .., ["ok"] => some .ok
+  | .via _, ["ok"] => some .ok
   | .addp .., ts => (allSome (ts.map (fun t => match t.splitOn ":" with
       | [p, c] => match p.toNat?, c.toInt? with | some p, some c => some (p, c) | _, _ => none
       | _ => none))).map Out.addp
@@ -140,6 +144,9 @@ def step (st : St) (line : String) : St × String :=
   | ["reset", n] =>
     let np := n.toNat?.getD 1
     ({ m := Model.C32.init np, sp := sinit np, np := np }, "ok | - | 0")
+  | ["reset", n, b] =>
+    let np := n.toNat?.getD 1
+    ({ m := Model.C32.init np (b.toNat?.getD 1), sp := sinit np, np := np }, "ok | - | 0")
   | ts =>
     match parseOp ts with
     | none => (st, "bad-op | - | 0")
